@@ -124,7 +124,7 @@ func (c *Ctx) gatedShapeRules(prefix string) {
 		if okReset {
 			cond, tsucc, _ := condOf(resets["gated"].Block().Idom())
 			ct := tb.Of(cond)
-			okReset = cond != nil && tsucc == resets["gated"].Block() && ct.Op == "Bin" && ct.Name == "==" && ct.Args[0].Is("Field", "Broker")
+			okReset = cond != nil && tsucc == resets["gated"].Block() && ct.Op == "Bin" && ct.Name == "==" && (ct.Args[0].Is("Field", "Broker") || ct.Args[1].Is("Field", "Broker"))
 		}
 		r.Check(okReset, rule, "FlushAll:no-broker", p.Pos(flush.Pos()), "without a Broker both containers are reset together", "the no-Broker branch does not reset both containers together")
 		// Close reaches FlushAll unconditionally and returns its result
